@@ -96,7 +96,7 @@ def search(rng, binaries, log):
     return None
 
 
-def extra_checks(tier, rng, binaries, log):
+def _extra_checks_base(tier, rng, binaries, log):
     """teardown racing with accepts on real loopback sockets: n clients sit in the listen backlog, the k-th connected
     event posts shutdown()/close(); the loop must run out of work, no connected event may follow, every connected
     connection is disconnected and every client is released"""
@@ -142,3 +142,9 @@ def extra_checks(tier, rng, binaries, log):
                 kv.get("connected"), kv.get("disconnected"), a), cmdline, {}))
     res.append((True, "", "", {"real_socket_teardown_races": n}))
     return res
+
+
+def extra_checks(tier, rng, binaries, log):
+    """+ the REAL http_client (sim_driver client mode): see tools/clientsim.py"""
+    import clientsim
+    return _extra_checks_base(tier, rng, binaries, log) + clientsim.run(tier, rng.fork("client"), binaries, log, ['life', 'abort'])
